@@ -3954,7 +3954,7 @@ func (d *bincDecDriverBytes) DecodeNaked() {
 	}
 	if n.v == valueTypeUint && d.h.SignedInteger {
 		n.v = valueTypeInt
-		n.i = int64(n.u)
+		n.i = int64(chkOvf.SignedIntV(n.u))
 	}
 }
 
@@ -8064,7 +8064,7 @@ func (d *bincDecDriverIO) DecodeNaked() {
 	}
 	if n.v == valueTypeUint && d.h.SignedInteger {
 		n.v = valueTypeInt
-		n.i = int64(n.u)
+		n.i = int64(chkOvf.SignedIntV(n.u))
 	}
 }
 
